@@ -167,6 +167,15 @@ impl EventGen for Container {
                     new_el.content_bbox = bbox;
                     context.update_element(&new_el);
                 }
+                // Content of these containers is not rendered where it stands (it is
+                // referenced from elsewhere), so it does not add to the parent's extent.
+                // Their own content box stays registered, e.g. for `clip-path` lookups.
+                if matches!(
+                    self.0.name.as_str(),
+                    "clipPath" | "marker" | "mask" | "pattern" | "linearGradient" | "radialGradient" | "filter"
+                ) {
+                    bbox = None;
+                }
 
                 if bbox.is_some() {
                     context.set_prev_element(&new_el);
